@@ -16,7 +16,9 @@ WORDS = ["has_child", "max", "min", "name", "parent", "unique", "distinct", "abc
 
 
 # BFS alphabet: the significant characters plus keyword names as single symbols
-BFS_SYMBOLS = ALPHABET + ["max", "has_child", "name", "parent", "-1", "1:2", "ab"]
+# (also in mixed / upper case, and the tab: an id that is a keyword name only up to letter case or
+# escaped edge white-space is its own abstract state, see Drv/C14.lean `segIdClass`)
+BFS_SYMBOLS = ALPHABET + ["max", "has_child", "name", "parent", "-1", "1:2", "ab", "\t", "Max", "HAS_CHILD"]
 # ordinary characters the state machine treats alike (a change to the code may not), appended to covers
 ODD = ["{", "}", "#", "@", "_", "|", "`", ";", "?", "é", "²", "①", "٣", "\t", "\n", "\x00", "0", "z", "A"]
 
@@ -100,6 +102,32 @@ def out_class(o):
 def in_model_text(text):
     """The parser model reads Python's int() and str.strip() only for ASCII."""
     return all(ord(c) < 128 for c in text)
+
+
+KEYWORD_NAMES = ["has_child", "name", "max", "min", "parent", "unique", "distinct"]
+# what may stand next to a keyword name: nothing, plain blanks (insignificant), ESCAPED blanks (part of the name)
+KEYWORD_PADS = ["", " ", "\t", "\\ ", "\\\t", " \\ ", "\\  ", "\\\\", "\\a"]
+
+
+def case_variants(word):
+    return [word, word.upper(), word.capitalize(), word[:-1] + word[-1].upper()]
+
+
+def keyword_segment_texts():
+    """Search-keyword segments in every spelling of the name the parser could be asked to recognise:
+    each keyword in lower / upper / mixed case, with plain and escaped white-space (and other escaped
+    symbols) on either side of the name, inverted or not, dot and forward-slash notation, with and
+    without parameters.  Small enough to enumerate (7 * 4 * 9 * 9 * 2 * 2 * 3)."""
+    out = []
+    for kw in KEYWORD_NAMES:
+        for name in case_variants(kw):
+            for before in KEYWORD_PADS:
+                for after in KEYWORD_PADS:
+                    for inv in ("", "!"):
+                        for lead in ("h", "/h"):
+                            for par in ("", "x", "x, y"):
+                                out.append("%s[%s%s%s%s(%s)]" % (lead, inv, before, name, after, par))
+    return out
 
 
 def exhaustive_texts(maxlen, prefix=""):
